@@ -225,6 +225,7 @@ class Evaluator:
         self.calls = 0
         # "constant": one tensor object handed out on every call; "memo": one tensor object per position.  The object
         # handed out is the evaluator's own; `pristine` keeps what it holds by contract (a private copy).
+        self.tiny, self.root_value, self.root_ply = spec.get("tiny", 1e-10), spec.get("root_value", 1.0), spec.get("root_ply", -1)
         self.share = spec.get("share")
         self.store = {}          # key -> (tensor handed out, pristine list of floats)
         self.last = None         # (key, tensor, pristine) of the last call
@@ -299,6 +300,19 @@ class Evaluator:
             if legal and not any(arr[i] >= self.above for i in legal):
                 arr[legal[h % len(legal)]] = 1 / 64.0
             arr[n:] = 0.5
+        elif k == "blind_win":
+            # the network is blind to the winning moves (prior `tiny`, far below any ordinary cutoff), uniform elsewhere;
+            # values: `root_value` at the ply the search starts from, +1 ("the side to move is better") below it
+            wins = [i for i in legal if outcome(legal_ids(pos)[i]) == -1]
+            if not wins and legal:
+                wins = [legal[h % len(legal)]]
+            rest = [i for i in legal if i not in wins]
+            for i in rest:
+                arr[i] = 1.0 / max(1, len(rest))
+            for i in wins:
+                arr[i] = self.tiny
+            v = self.root_value if pos.ply == self.root_ply else 1.0
+            return torch.from_numpy(arr.copy()), v
         elif k == "illegal_mass":
             # all the mass on ids the rules refuse, one legal id just above the cutoff, the rest 0
             illegal = [i for i in range(m) if i not in legal_ids(pos)]
